@@ -1010,4 +1010,62 @@ CONTROLS += [
             params.append(param)
             if at_type:'''),
         (P, '''                        param_idx=len(params) - 1,''', '''                        param_idx=n_before - 1,''')),
+    # ------------------------------------------------------------------ round 5
+    pos("trial parse only for arguments that start with a name", ["C02"], ["R2.2"],
+        (P, """            if raw_toks and (
+                raw_toks[0].type in self._pqname_start_tokens
+                or raw_toks[0].type in ("const", "volatile")
+            ):""", """            if raw_toks and raw_toks[0].type in self._pqname_start_tokens:""")),
+    pos("template-argument mode takes every '(' for a parameter list", ["C02"], ["R2.8"],
+        (P, """            elif nonptr_fn and not self.lex.token_peek_if("*", "&", "DBL_AMP"):""", """            elif nonptr_fn:""")),
+    pos("no array suffix in the template-argument trial", ["C02", "C17"], ["R2.10", "R17.7"],
+        (P, """                        atok = self.lex.token_if("[")
+                        if atok:
+                            dtype = self._parse_array_type(atok, dtype)
+                        self._next_token_must_be(PhonyEnding.type)""", """                        self._next_token_must_be(PhonyEnding.type)""")),
+    pos("']]' pops a second expectation without looking at it", ["C13", "C14", "C06"], ["R13.4", "R14.5", "R6.4"],
+        (P, """                    and match_stack
+                    and match_stack[-1] == "]"
+                ):""", """                    and match_stack
+                ):""")),
+    pos("']]' not accepted for two '['", ["C13", "C14"], ["R13.4", "R14.5"],
+        (P, """                if (
+                    tok.type == "DBL_RBRACKET"
+                    and expected == "]"
+                    and match_stack
+                    and match_stack[-1] == "]"
+                ):
+                    # the lexer fuses two closing brackets: a[b[0]]
+                    match_stack.pop()
+                elif tok.type != expected:""", """                if tok.type != expected:""")),
+    neg("expectation stack as a plain list, emptied test by truthiness",
+        (P, """        match_stack = deque((token_map[tok.type] for tok in consumed))""", """        match_stack = [token_map[tok.type] for tok in consumed]"""),
+        (P, """                if len(match_stack) == 0:
+                    return consumed""", """                if not match_stack:
+                    return consumed""")),
+    pos("tolerated '>' matched from the bottom of the stack", ["C13", "C14"], ["R13.4", "R14.5"],
+        (P, """                    for i, maybe in enumerate(reversed(match_stack)):
+                        if tok.type == maybe:
+                            for _ in range(i + 1):
+                                match_stack.pop()
+                            break""", """                    for i, maybe in enumerate(match_stack):
+                        if tok.type == maybe:
+                            for _ in range(len(match_stack) - i):
+                                match_stack.pop()
+                            break""")),
+    pos("enumerator: trailing lookup after the separator", ["C11"], ["R11.6"],
+        (P, """            if doxygen is None:
+                doxygen = self.lex.get_doxygen_after()
+
+            name = name_tok.value
+            value = None
+""", """            name = name_tok.value
+            value = None
+"""), (P, """            values.append(Enumerator(name, value, doxygen))
+""", """            if doxygen is None:
+                doxygen = self.lex.get_doxygen_after()
+            values.append(Enumerator(name, value, doxygen))
+""")),
+    pos("numeric conversion of token text in a debug_print", ["C18"], ["R18.2"],
+        (P, """        self.debug_print("parameter: %s", param)""", """        self.debug_print("parameter: %s (%d)", param, tok.value)""")),
 ]
